@@ -262,15 +262,17 @@ theorem gen_bup_parse (grow : Nat → Nat → Nat) (fuel : Nat) (lcp : Slice →
         ProbeW.greedyLoopW (ProbeW.bupProbeW s.BUPConfig.WindowSize.toNat (Min.min 3 iln) (Wn + nN + 1 - iln)
             (A.drop (Wn + nN))) (A.take (Wn + nN)) (Wn + nN + 1 - iln)
           { dict := ofBucket g0, i := Wn, litIndex := Wn, seqs := [], lits := [] } = some st' ∧
-        bucketParser_Parse_loop_1 grow lcp (Int.ofNat (Wn + nN) - (iln : Int) + 1)
-          { arr := A, len := (Int.ofNat (Wn + nN) - (iln : Int) + 1 + 7).toNat } { arr := A, len := Wn + nN }
-          ((Min.min 3 iln : Nat) : Int) fuel (Wn : Int)
-          { bucketDictionary := { ParserBuffer := s.bucketDictionary.ParserBuffer, bucketHash := g0 },
-            BUPConfig := s.BUPConfig }
-          { Sequences := [], Literals := { arr := blk.Literals.arr, len := 0 } } (Wn : Int) =
-          Res.ok ((st'.i : Int),
-            { bucketDictionary := { ParserBuffer := s.bucketDictionary.ParserBuffer, bucketHash := g' },
-              BUPConfig := s.BUPConfig }, blk', (st'.litIndex : Int)) ∧
+        -- the loop function applied and its state tuple built BY GO VARIABLE NAME (LzProofs/GenCallByName.lean)
+        (gcall% bucketParser_Parse_loop_1 [grow := grow, lcp := lcp, inputEnd := Int.ofNat (Wn + nN) - (iln : Int) + 1,
+          _p := ({ arr := A, len := (Int.ofNat (Wn + nN) - (iln : Int) + 1 + 7).toNat } : Slice),
+          p := ({ arr := A, len := Wn + nN } : Slice),
+          minMatchLen := ((Min.min 3 iln : Nat) : Int), fuel := fuel, i := (Wn : Int),
+          s := { bucketDictionary := { ParserBuffer := s.bucketDictionary.ParserBuffer, bucketHash := g0 },
+                 BUPConfig := s.BUPConfig },
+          blk := { Sequences := [], Literals := { arr := blk.Literals.arr, len := 0 } }, litIndex := (Wn : Int)]) =
+          Res.ok (gstate% bucketParser_Parse_loop_1 [i := (st'.i : Int),
+            s := { bucketDictionary := { ParserBuffer := s.bucketDictionary.ParserBuffer, bucketHash := g' },
+                   BUPConfig := s.BUPConfig }, blk := blk', litIndex := (st'.litIndex : Int)]) ∧
         BOK g' ∧ SameCfg g0 g' ∧ st'.dict = ofBucket g' ∧
         blk'.Sequences = st'.seqs.map seqRep ∧ blk'.Literals.data = st'.lits ∧ SWF blk'.Literals ∧
         Wn ≤ st'.litIndex ∧ st'.litIndex ≤ Wn + nN := by
